@@ -9,6 +9,7 @@ class Grammar(qc.QGrammar):
                     ("suspend", 1), ("resume", 2), ("retarget", 1), ("noise", 1)]
     body_kinds = [("work", 3), ("async", 3), ("basync", 1), ("suspend", 1), ("resume", 1)]
     max_depth = 2
+    barrier_block_objects = True
 
     def build_graph(self, P, h):
         # q0 = the serial queue under test: custom serial, or the main queue (drained by dispatch_main)
